@@ -25,6 +25,7 @@ var effectFreePrefixes = []string{
 	"github.com/bloxapp/ssv/utils/format.", "golang.org/x/exp/slices.Contains", "golang.org/x/exp/maps.Keys",
 	"(*github.com/bloxapp/ssv/operator/duties.Scheduler).loggerWithSlot", "os.Getenv", "runtime.",
 	"(*github.com/herumi/bls-eth-go-binary/bls.", "github.com/herumi/bls-eth-go-binary/bls.",
+	"encoding/json.Marshal",
 	"(github.com/bloxapp/ssv/monitoring/metricsreporter.MetricsReporter).", "(*github.com/bloxapp/ssv/monitoring/metricsreporter.",
 	"github.com/ethereum/go-ethereum/common.", "(github.com/ethereum/go-ethereum/common.", "(*math/big.Int).", "math/big.",
 }
@@ -82,7 +83,7 @@ func (fr *frame) call(b *ssa.BasicBlock, site ssa.Instruction, c *ssa.CallCommon
 				nh = nh.set("$res:"+cn, asInt(res.ts[0], leaves(rt)[0].Sort))
 			}
 			// further result leaves: lastresn(name, k)
-			for k := 1; k < len(res.ts) && k < 8; k++ {
+			for k := 1; k < len(res.ts) && k < 12; k++ {
 				key := fmt.Sprintf("$res:%s:%d", cn, k)
 				x.regKey(key, "Int")
 				nh = nh.set(key, asInt(res.ts[k], leaves(rt)[k].Sort))
@@ -214,7 +215,11 @@ func (fr *frame) countCall(c *ssa.CallCommon, name string, args []Val, atypes []
 			ak := fmt.Sprintf("$arg:%s:%d", cn, i)
 			x.regKey(ak, "Int")
 			if len(a.ts) > 0 && a.fp == nil {
-				h = h.set(ak, asInt(a.ts[0], leaves(atypes[i])[0].Sort))
+				if _, isIface := atypes[i].Underlying().(*types.Interface); isIface && len(a.ts) == 2 {
+					h = h.set(ak, a.ts[1]) // interface arguments: the payload (boxed value / pointer), not the type tag
+				} else {
+					h = h.set(ak, asInt(a.ts[0], leaves(atypes[i])[0].Sort))
+				}
 			}
 		}
 	}
@@ -720,7 +725,9 @@ func (fr *frame) special(b *ssa.BasicBlock, site ssa.Instruction, name string, c
 	switch name {
 	case "errors.New", "github.com/pkg/errors.New", "github.com/pkg/errors.Errorf", "fmt.Errorf":
 		res := x.freshVal("err", rt)
-		x.sc.assert(not(eq(res.ts[0], "0")))
+		// the dynamic type is private to the library (fmt.wrapError, errors.errorString, errors.fundamental):
+		// it is none of the types the verified code can name (their ids are positive) and not nil (0)
+		x.sc.assert(app("<", res.ts[0], "0"))
 		if name == "fmt.Errorf" || name == "github.com/pkg/errors.Errorf" {
 			x.sc.assert(x.errClassPreserved(fr, c, res))
 		}
